@@ -4,7 +4,7 @@
 use vstd::prelude::*;
 use vstd::std_specs::ops::*;
 use vstd::std_specs::cmp::*;
-use std::collections::BTreeMap;
+use std::collections::{BTreeMap, HashMap};
 use core::str::FromStr;
 use std::result;
 use std::num::TryFromIntError;
@@ -59,6 +59,12 @@ use super::*;
 
 //@fn <From<Vec<V>> for Value>::from
 //@fn <TryFrom<Value> for Vec<V>>::try_from
+//@fn <From<BTreeMap<K, V>> for Value>::from
+//@fn <From<HashMap<K, V>> for Value>::from
+//@fn <TryFrom<Value> for BTreeMap<String, Value>>::try_from
+//@fn <TryFrom<Value> for HashMap<String, Value>>::try_from
+//@fn <TryFrom<Value> for BTreeMap<String, V>>::try_from
+//@fn <TryFrom<Value> for HashMap<String, V>>::try_from
 
 //@include convert_lemmas.rs
 
